@@ -62,10 +62,10 @@ def plan(tier, seed):
         elif 2 in fd:
             degs = [d for d in degs if d <= 6]
         for chunk in ([degs[:2], degs[2:]] if nd == 3 and quick else [degs[:3], degs[3:5], degs[5:]] if nd == 3 else [degs]):
-            units.append(dict(kind='children', fdims=fd, degrees=chunk, nsub=(3 if quick else 40) if nd == 3 else None))
-    for k in range(0, 16 if quick else 160, 2):
+            units.append(dict(kind='children', fdims=fd, degrees=chunk, nsub=(3 if quick else 120) if nd == 3 else None))
+    for k in range(0, 16 if quick else 300, 2):
         units.append(dict(kind='topo', start=k, stop=k + 2))
-    ntrim = 6 if quick else 60
+    ntrim = 6 if quick else 120
     for fd in ([1, 1, 1], [2, 1], [1, 2], [3], [1, 1], [2], [1]):
         for k in range(0, ntrim, 2):
             units.append(dict(kind='trim', fdims=fd, start=k, stop=k + 2))
